@@ -54,6 +54,7 @@ class SimDatagramNet:
         self.on_deliver = None       # fn(src, dst, data, endpoint) -> None | [(data, tag), ...] queued instead (corruption stage)
         self.on_receive = None       # fn(endpoint, src, data, tag) -> bool handled (judge delivers itself)
         self.escapes = []            # (vtime, dst, exc type, src) exceptions that escaped datagram_received
+        self.storm = False
         self._link_rng = {}
         loop.create_datagram_endpoint = self.create_datagram_endpoint
 
@@ -88,6 +89,11 @@ class SimDatagramNet:
 
     def route(self, src, dst, data):
         self.sent += 1
+        if self.in_flight > self.cfg.get('max_in_flight', 20000):
+            # event storm: more datagrams in flight than a finite network of this size can legitimately have
+            # (e.g. a lookup spawning probes without bound).  Stop feeding it; the harness reports it.
+            self.storm = True
+            return
         if self.on_send is not None:
             data = self.on_send(src, dst, data)
             if data is None:
